@@ -6,7 +6,7 @@ S = f"/tmp/ag-{name}/verif"
 # CLAIMED entries
 src = open(f"{S}/tools/gen_manifest.py").read()
 dst = open("/verif/tools/gen_manifest.py").read()
-for m in re.finditer(r'\n "(C\d+)": \((?:.|\n)*?\n\s+"DESIGN\.md[^\n]*\),\n', src):
+for m in re.finditer(r'(?m)^ "(C\d+)": \((?:.|\n)*?\n\s+"DESIGN\.md[^\n]*\),\n', src):
     pid = m.group(1)
     if f'\n "{pid}": (' not in dst:
         dst = dst.replace("}\nNOT_YET =", m.group(0).lstrip("\n") + "}\nNOT_YET =")
